@@ -159,7 +159,10 @@ def s_contract_all(draw, tier):
 
 
 def zero_valued(ref, mag):
-    return float(np.max(np.abs(ref))) <= 1e-290 * max(mag, 1e-300) if np.size(ref) else True
+    # exactly zero, or zero up to the rounding of the reference itself (an integer tensor summing to exactly 0 makes quimb
+    # return 0.0 - whose stripped form is (nan, -inf) - while the pairwise reference is left with -8.7e-19: found by the
+    # thorough tier at seed 2): the mantissa / exponent split of such a value is not compared
+    return float(np.max(np.abs(ref))) <= 1e-13 * max(mag, 1e-300) if np.size(ref) else True
 
 
 def run_contract_all(case):
